@@ -38,7 +38,7 @@ NS = "Okane."
 THEOREMS = [NS + t for t in [
     "C12_resolve", "C12_resolve_canonical", "C12_resolve_same", "C12_step", "C12_transparent", "C12_transparent_declared",
     "C12_transparent_decl", "C12_conflict", "C12_conflict_process", "C12_conflict_commodity", "C12_conflict_commodity_alias",
-    "C12_use_makes_canonical", "C12_use_before_declare", "stepEntry_le", "declared_after"]]
+    "C12_use_makes_canonical", "C12_use_before_declare", "C12_canonical_accounts", "stepEntry_le", "declared_after"]]
 
 ALL_ALIASES = sorted({a for v in lg1112.ACCOUNT_ALIASES.values() for a in v} | {a for v in lg1112.COMMODITY_ALIASES.values() for a in v})
 
@@ -62,8 +62,12 @@ def canonical_text(entries):
 
 
 def make_pair(rng, p_decl=0.35, n=None):
-    g = lg1112.Gen(rng, n_entries=n, use_aliases=True, p_decl=p_decl)
-    entries = g.generate()
+    # most pairs should really use an alias somewhere: retry a few times (a share of alias-free ledgers is kept)
+    for attempt in range(6):
+        g = lg1112.Gen(rng, n_entries=n, use_aliases=True, p_decl=p_decl)
+        entries = g.generate()
+        if any(nm.written != nm.canonical for nm in all_names(entries)) or rng.random() < 0.08:
+            break
     return g, entries, canonical_text(entries), lg1112.render(entries)
 
 
